@@ -412,7 +412,29 @@ func runPerm(t *testing.T, sched simrt.Schedule, prog permProg) ([]Violation, Ru
 		div := &divFilter{seen: map[string]bool{}}
 		// topics on which an injected store failure interrupted a multi-write handler: what the topic looks
 		// like after its next load from the store is still a consequence of that failure
-		faultTaint := map[string]string{}
+		faultTaint := map[string][]string{}
+		addTaint := func(topic, cause string) {
+			for _, c := range faultTaint[topic] {
+				if c == cause {
+					return
+				}
+			}
+			faultTaint[topic] = append(faultTaint[topic], cause)
+		}
+		// several handlers may have been interrupted on one topic before the divergence becomes visible: the
+		// divergence is attributed to the first of them whose partial effect is a recorded finding, else to the first
+		taintKey := func(topic string) string {
+			cs := faultTaint[topic]
+			if len(cs) == 0 {
+				return ""
+			}
+			for _, c := range cs {
+				if loadKnownFindings()["C08 store-fault-partial-effect "+c] {
+					return "store-fault-partial-effect " + c
+				}
+			}
+			return "store-fault-partial-effect " + cs[0]
+		}
 		// owner-count invariants on such a topic: the three uncompensated writes of an ownership transfer
 		relabel := func(vs []Violation) []Violation {
 			for i := range vs {
@@ -463,8 +485,12 @@ func runPerm(t *testing.T, sched simrt.Schedule, prog permProg) ([]Violation, Ru
 			if failed {
 				simrt.Probe("fault.store_err")
 			}
+			cause := faultedHandler(m, e.Actor.UserId())
+			if strings.HasPrefix(e.Topic, "p2p") && e.Kind != "pub" && !(m.Del != nil && m.Del.What == "msg") {
+				cause += "-p2p"
+			}
 			if failed && w.Disk.Dump() != e.DiskDump {
-				faultTaint[e.Topic] = faultedHandler(m, e.Actor.UserId())
+				addTaint(e.Topic, cause)
 			}
 			out = append(out, relabel(permInvariants(w, post, where))...)
 			// a {set} from a session that is not attached is served by replyOfflineTopicSetSub straight from the
@@ -490,14 +516,7 @@ func runPerm(t *testing.T, sched simrt.Schedule, prog permProg) ([]Violation, Ru
 					}
 				}
 			}
-			cause := faultedHandler(m, e.Actor.UserId())
-			if strings.HasPrefix(e.Topic, "p2p") && e.Kind != "pub" && !(m.Del != nil && m.Del.What == "msg") {
-				cause += "-p2p"
-			}
 			dv := div.filter(cacheVsStore(w, post, where), cause, detachedDiverged)
-			if failed && w.Disk.Dump() != e.DiskDump {
-				faultTaint[e.Topic] = cause
-			}
 			if failed {
 				for i := range dv {
 					if dv[i].Property == "C08" {
@@ -785,8 +804,8 @@ func runPerm(t *testing.T, sched simrt.Schedule, prog permProg) ([]Violation, Ru
 				}
 				rv := div.filter(cacheVsStore(w, sn, "after reload"), rc, detachedDiverged)
 				for i := range rv {
-					if m := divTopicUser.FindStringSubmatch(rv[i].Text); m != nil && faultTaint[m[1]] != "" && rv[i].Property == "C08" {
-						rv[i].Key = "store-fault-partial-effect " + faultTaint[m[1]]
+					if m := divTopicUser.FindStringSubmatch(rv[i].Text); m != nil && len(faultTaint[m[1]]) > 0 && rv[i].Property == "C08" {
+						rv[i].Key = taintKey(m[1])
 					}
 				}
 				out = append(out, rv...)
